@@ -55,9 +55,15 @@ impl World {
     }
     /// descriptor key for index i; x-only form in Tap
     pub fn key(&self, i: usize, tap: bool) -> Key {
-        let s = if tap {
+        // in Tap, odd-numbered keys are written in their 33-byte form (the library treats them
+        // as x-only ones), even-numbered keys as x-only
+        let s = if tap && i % 2 == 0 {
             let (x, _) = self.pks[i].inner.x_only_public_key();
             format!("{}", x)
+        } else if tap {
+            let mut pk = self.pks[i];
+            pk.compressed = true;
+            format!("{}", pk)
         } else {
             format!("{}", self.pks[i])
         };
